@@ -608,8 +608,16 @@ pub fn expect_mbi(region: &[u8], opts: &ExpectOpts) -> Expected {
             }
         }
     };
+    // A first match that is itself malformed (its typed view is rejected) leaves
+    // the getter's result open: C04 pins "first match" for conformant tags only,
+    // and C15 only demands that no oversized view is handed out.
+    let first_is_malformed = |kind: u32| -> bool { w.first_of(kind).map_or(false, |(_, it)| !cast_succeeds(kind, it.size as usize)) };
     for (name, kind) in KIND_NAMES {
         let key = format!("g.{name}");
+        if first_is_malformed(kind) || (kind == 17 && first_is_malformed(18)) {
+            exp.either(key, vec![Val::Panic, Val::None]);
+            continue;
+        }
         match kind {
             17 => {
                 // Withheld while a boot-services-not-exited tag is present.
